@@ -3,7 +3,7 @@
 # Confirms a seeded change independently in a scratch worktree outside /repo and /verif:
 #   demo passes without the patch, patch applies + builds, demo fails with it, pass list unchanged.
 # Prints one JSON line; scratch worktree is removed afterwards.
-SRC="$1"; NAME="$2"; BASE="${3:-6fa58d5}"
+SRC="$1"; NAME="$2"; BASE="${3:-6fa58d5}"; DD="${DEMO_DIR:-vm}"
 export GOFLAGS=-mod=mod GOPROXY=off GOSUMDB=off GOTOOLCHAIN=local
 WT=/tmp/confirm/$NAME
 mkdir -p /tmp/confirm
@@ -13,20 +13,20 @@ cd "$WT" || exit 2
 putdemo() {
   for f in "$SRC"/*_test.go; do
     b=$(basename "$f"); [ "$b" = zz_wasm_test.go ] && b=zz_aspectwasm_test.go
-    cp "$f" vm/"$b"
+    cp "$f" $DD/"$b"
   done
   if grep -q "demoEVM\|demoInitHost" vm/zz_seeded*_test.go 2>/dev/null && [ ! -f vm/zz_demo_test.go ]; then cp /tmp/wt/template/zz_demo_test.go vm/; fi
   if grep -q "BuildAspect" vm/zz_seeded*_test.go 2>/dev/null && [ ! -f vm/zz_aspectwasm_test.go ]; then cp /tmp/wt/template/zz_aspectwasm_test.go vm/; fi
 }
-rmdemo() { rm -f vm/zz_*_test.go; }
+rmdemo() { rm -f $DD/zz_*_test.go; }
 putdemo
-go test -vet=off -count=1 -run 'Seeded' ./vm/ > /tmp/confirm/$NAME.without.log 2>&1; WITHOUT=$?
+go test -vet=off -count=1 -run Seeded ./$DD/ > /tmp/confirm/$NAME.without.log 2>&1; WITHOUT=$?
 rmdemo
 git apply "$SRC/patch.diff" > /tmp/confirm/$NAME.apply.log 2>&1; APPLY=$?
 (go build ./... && go test -vet=off -count=1 -run '^$' ./... ) > /tmp/confirm/$NAME.build.log 2>&1; BUILD=$?
 (go build -tags verif ./... ) >> /tmp/confirm/$NAME.build.log 2>&1; BUILDV=$?
 putdemo
-go test -vet=off -count=1 -run 'Seeded' ./vm/ > /tmp/confirm/$NAME.with.log 2>&1; WITH=$?
+go test -vet=off -count=1 -run Seeded ./$DD/ > /tmp/confirm/$NAME.with.log 2>&1; WITH=$?
 rmdemo
 /tmp/wt/template/passlist.sh "$WT" > /tmp/confirm/$NAME.pass.txt 2>/dev/null
 if diff -q /tmp/confirm/$NAME.pass.txt /tmp/wt/baseline_pass.txt >/dev/null; then PASS=same; else PASS=differs; fi
